@@ -9,7 +9,7 @@ val s_meta_tables : name
 
 val s_column_name : name
 
-val s_column_names : name
+val code_seed : name
 
 val s_timestamp : name
 
